@@ -47,7 +47,7 @@ def gen_advert(r: random.Random, net: str, dev_id: str) -> dict:
     # valid: True = must be accepted, False = must be ignored, None = validity depends on where the damage landed (only no-raise is required)
     if net == "ble":
         a.update(sf=r.choice([0, 1]), ci=r.choice([1, 2, 5, 8, 10, 17]), gsn=r.randrange(1, 65535), cn=r.randrange(1, 255), setup=r.random() < 0.7,
-                 local_name=r.choice(["Dev", None, "Device Long Name"]))
+                 local_name=r.choice(["Dev", None, "Device Long Name"]), fresh_dev=r.random() < 0.15)
         if not valid:
             a["bad"] = r.choice(["trunc", "trunc", "type", "random", "empty", "company", "short_enc"])
             a["n"] = r.randrange(0, 21)
@@ -239,6 +239,8 @@ def execute(plan: dict, ch: Chooser) -> dict:
 
                     p.restore_accessories_state(make_db(1, 2), 1, None, 1)
 
+        ble_seen: dict = {}
+
         def deliver(adv: dict):
             rec = {"t": loop.time(), "adv": adv, "raised": None}
             if adv.get("net") == "ble":
@@ -247,7 +249,17 @@ def execute(plan: dict, ch: Chooser) -> dict:
             ctx.event("advert", adv["net"], adv["id"], adv["valid"], adv.get("bad"))
             try:
                 if adv["net"] == "ble":
-                    dev, ad = disc.ble_objects("00:11:22:33:44:" + adv["id"][-2:].upper(), adv.get("local_name"), build_ble(adv))
+                    address = "00:11:22:33:44:" + adv["id"][-2:].upper()
+                    dev, ad = disc.ble_objects(address, adv.get("local_name"), build_ble(adv))
+                    # as bleak's scanner does: ONE BLEDevice object per address, handed to the callback for every later
+                    # advertisement with only its name updated in place; a new object only after a scanner restart
+                    seen = ble_seen.get(address)
+                    if seen is not None and not adv.get("fresh_dev"):
+                        seen.name = adv.get("local_name")
+                        dev = seen
+                        ctx.probe("ble_advert_on_the_same_device_object")
+                    else:
+                        ble_seen[address] = dev
                     ctls["ble"]._device_detected(dev, ad)
                 else:
                     txt, addrs = build_txt(adv)
